@@ -51,6 +51,19 @@ class ChunkSock:
         if self.responder is not None:
             self.chunks = [bytes(c) for c in self.responder(data)]
 
+    # what KMIPProxy.open()/close() do with a socket
+    def connect(self, address):
+        self.connected = address
+
+    def settimeout(self, t):
+        pass
+
+    def shutdown(self, how):
+        self.was_shut_down = True
+
+    def close(self):
+        self.was_closed = True
+
     def recv(self, n):
         self.recv_calls += 1
         if not self.chunks:
@@ -68,6 +81,56 @@ def make_client(version, sock):
     cl._is_open = True
     cl.proxy.protocol = KMIPProtocol(sock)
     return cl
+
+
+def make_closed_client(version, sock):
+    """A ProxyKmipClient that is NOT yet open: its real open() (and so `with client:`) runs, only the TLS wrapping of the
+    socket is replaced from outside by handing over `sock`."""
+    cl = pie_client.ProxyKmipClient(kmip_version=version)
+
+    def _create_socket(real_sock):
+        try:
+            real_sock.close()
+        except Exception:
+            pass
+        cl.proxy.socket = sock
+    cl.proxy._create_socket = _create_socket
+    return cl
+
+
+def run_call_in_with_block(version, sock, fn):
+    """fn(client) inside `with ProxyKmipClient(...) as client:`; the outcome is what arrives OUTSIDE the block.
+    -> (outcome as run_call, notes) where notes lists control-flow anomalies of the context manager."""
+    notes = []
+    inner = {'exc': None, 'done': False, 'value': None, 'entered': None}
+    cl = make_closed_client(version, sock)
+    arrived = None
+    try:
+        with cl as c:
+            inner['entered'] = c
+            try:
+                inner['value'] = fn(c)
+                inner['done'] = True
+            except BaseException as e:      # recorded and re-raised unchanged
+                inner['exc'] = e
+                raise
+    except HarnessError:
+        raise
+    except Exception as e:
+        arrived = e
+    if inner['entered'] is not cl:
+        notes.append('__enter__ did not return the client itself')
+    if inner['exc'] is not None and arrived is None:
+        notes.append('suppressed: %s raised inside the with block did not propagate out of it' % type(inner['exc']).__name__)
+    elif inner['exc'] is not None and arrived is not inner['exc']:
+        notes.append('replaced: %s raised inside the with block arrived outside as %s' % (type(inner['exc']).__name__, type(arrived).__name__))
+    if cl._is_open:
+        notes.append('the client is still open after the with block')
+    if arrived is not None:
+        return classify_exception(arrived), notes
+    if inner['done']:
+        return ('return', inner['value']), notes
+    return ('return', None), notes       # the block was left without value and without exception
 
 
 def chunk(data, plan, rng=None):
@@ -282,8 +345,9 @@ def attrs_coq(a):
 class Item:
     """One response batch item.  op: 'same' | None | an enums.Operation."""
 
-    def __init__(self, status=RS.SUCCESS, reason=None, message=None, payload=None, op='same'):
+    def __init__(self, status=RS.SUCCESS, reason=None, message=None, payload=None, op='same', hv=None):
         self.status, self.reason, self.message, self.payload, self.op = status, reason, message, payload, op
+        self.hv = hv        # on the first item: protocol version (major, minor) the RESPONSE HEADER announces, None = the client's
 
     def describe(self):
         return {'op': self.op if isinstance(self.op, (str, type(None))) else self.op.name, 'status': self.status.name,
@@ -376,7 +440,8 @@ class Scripted:
                 out = build_response(self.version, None, [Item(RS.OPERATION_FAILED, RR.INVALID_MESSAGE,
                                                               'Error parsing request message.', op=None)], self.header_version)
             else:
-                out = build_response(self.version, rop, self.items, self.header_version)
+                hv = self.header_version or (self.items[0].hv if self.items else None)
+                out = build_response(self.version, rop, self.items, hv)
                 if self.mangle is not None:
                     out = self.mangle(out)
         except Exception as e:
